@@ -470,6 +470,7 @@ func (fr *Frame) sortStable(in *ssa.Call, args []*GVal, stable bool) *GVal {
 				vars := map[string]*GVal{}
 				if mf != nil && len(mf.Params) > 0 {
 					vars[mf.Params[0].Name()] = &GVal{T: ref, Typ: mf.Params[0].Type()}
+					p.aliasParams(mf, vars)
 				}
 				envPre := &Env{fr: fr, vars: vars, st: ex.st, old: ex.st, oldVars: vars}
 				fr.checkMeasure(mc, "callback("+cn+")", envPre, in)
@@ -558,6 +559,7 @@ func (fr *Frame) sortOrderFacts(tn string, ref *Term, stable bool, oldArr, n *Te
 			mf.Params[1].Name(): {T: i, Typ: types.Typ[types.Int]},
 			mf.Params[2].Name(): {T: j, Typ: types.Typ[types.Int]},
 		}
+		p.aliasParams(mf, vars)
 		env := &Env{fr: fr, vars: vars, st: ex.st, old: ex.st, oldVars: vars}
 		return fr.evalBool(x, env)
 	}
